@@ -174,6 +174,8 @@ impl Machine {
             let mut g = lock(w);
             let life = g.life;
             g.life += 1;
+            g.life_interactions = 0;
+            g.runaway = false;
             g.crashed = false;
             g.gates.clear();
             g.log.push(Op::Build { life, oneshot });
@@ -286,7 +288,7 @@ pub fn run_eager(m: &mut Machine, stop: StopSpec) -> RunEnd {
         if lock(&m.w).crashed {
             return RunEnd::Crashed;
         }
-        if m.polls >= stop.max_polls {
+        if m.polls >= stop.max_polls || lock(&m.w).runaway {
             return RunEnd::PollBudget;
         }
         match m.poll_once() {
@@ -304,6 +306,9 @@ pub fn run_eager(m: &mut Machine, stop: StopSpec) -> RunEnd {
                 }
                 if lock(&m.w).crashed {
                     return RunEnd::Crashed;
+                }
+                if lock(&m.w).runaway {
+                    return RunEnd::PollBudget;
                 }
                 if !m.woken() {
                     return RunEnd::Stalled;
